@@ -62,10 +62,15 @@ func validDoc(r *rand.Rand) []member {
 
 // Deploy: configuration documents through LoadFromData and server.Setup (production wiring over a
 // stub API server), then AdmissionReview bodies through HandleValidate.
-func Deploy(seed int64, n int) (*cq.Set, *cq.Interner) {
+func Deploy(seed int64, n int) (*cq.Set, *cq.Interner) { return DeployStream("c17e2e", seed, n, false) }
+
+// DeployStream: with checkMetrics, the metric families of every deployed server are gathered after its requests
+// and the policy_version label of every evaluation series must be latest, future or a version not newer than the
+// server's own (C18 through the production wiring: Setup builds the recorder from api.GetAPIVersion()).
+func DeployStream(stream string, seed int64, n int, checkMetrics bool) (*cq.Set, *cq.Interner) {
 	r := rand.New(rand.NewSource(seed))
 	in := cq.NewInterner()
-	set := &cq.Set{Stream: "c17e2e", Seed: seed, Imports: "Model.Api Model.Pod Model.Checks Model.Admission Model.Wire Model.Sources Model.Config Model.Deploy Corr.Adm Corr.Deploy", CaseTy: "dep_case", RunFn: "run_dep",
+	set := &cq.Set{Stream: stream, Seed: seed, Imports: "Model.Api Model.Pod Model.Checks Model.Admission Model.Wire Model.Sources Model.Config Model.Deploy Corr.Adm Corr.Deploy", CaseTy: "dep_case", RunFn: "run_dep",
 		Rule: "configuration documents (3/4 acceptable and valid with exemptions from the request pools, 1/4 from the C17 document generator: unknown/duplicated keys, unserved versions, malformed values), rendered as JSON or YAML, through load.LoadFromData and cmd/webhook/server.Setup with a client for a stub API server (production wiring: namespace lister backed by live GETs, live pod LISTs, default checks, Prometheus recorder); for each deployment 8 AdmissionReview bodies (pods, controllers, namespaces; raw JSON objects) are POSTed to HandleValidate with the namespace labels, pods and failures of the moment set on the stub; the model composes load, to_policy, validation, world_of and handle; distinct by (document, state, request); non-trivial = the server came up"}
 	inner := innerEvaluator(false)
 	deployments := n / 8
@@ -218,6 +223,34 @@ func Deploy(seed int64, n int) (*cq.Set, *cq.Interner) {
 				in.S(uid), adm.ReqTerm(in, &s.Req), fmt.Sprintf("%d%%N", size), cq.List(evals), status, answer)
 			set.Cases = append(set.Cases, cq.Case{Term: term, Key: fmt.Sprintf("%s|%+v|%+v", doc, st, s.Req), Nontrivial: srv != nil,
 				Tags: append(append([]string{}, s.Tags...), "format:"+format, fmt.Sprintf("deployed:%v", srv != nil)), Sample: sample, Uses: in.TakeUses()})
+		}
+		if checkMetrics && srv != nil {
+			if fams, err := webhookserver.VerifGatherMetrics(srv); err != nil {
+				set.GoFails = append(set.GoFails, cq.GoFail{What: "gathering the deployed server's metrics failed: " + err.Error(), Replay: map[string]interface{}{"document": doc}})
+			} else {
+				server := api.GetAPIVersion()
+				for _, fam := range fams {
+					if fam.GetName() != "pod_security_evaluations_total" {
+						continue
+					}
+					for _, m := range fam.GetMetric() {
+						for _, l := range m.GetLabel() {
+							if l.GetName() != "policy_version" {
+								continue
+							}
+							v := l.GetValue()
+							ok := v == "latest" || v == "future"
+							if pv, err := api.ParseVersion(v); !ok && err == nil && !server.Older(pv) {
+								ok = true
+							}
+							if !ok {
+								set.GoFails = append(set.GoFails, cq.GoFail{What: fmt.Sprintf("a server built by Setup exposes an evaluation series with policy_version=%q (server version %s): user-chosen namespace labels create series", v, server.String()),
+									Replay: map[string]interface{}{"document": doc, "policy_version": v, "server_version": server.String()}})
+							}
+						}
+					}
+				}
+			}
 		}
 		stub.Close()
 	}
